@@ -711,6 +711,12 @@ def fixed_cases(tier):
                     dict(k="struct", name="s2", union=1), dict(k="inst", s="s1", lab="m1"),
                     dict(k="res", form=rf, n=9, name="f5"), dict(k="ends"), dict(k="inst", s="s2", lab="i2", dims=[2, 2])],
               first=inner_union)
+        # reservations of 64 Ki units and more inside a structure (no address space limits them there): the offsets of
+        # the following elements and the length symbol count all of them
+        for big in ((65535, 65536, 65537, 70000, 200000) if rf == "ds" else (65535,)):     # RES/BSS/DS.x take 16 bits
+            F([c], [dict(k="cpu", c=c), dict(k="struct", name="s1"), dict(k="res", form=rf, n=3, name="f1"),
+                    dict(k="res", form=rf, n=big, name="f2"), dict(k="res", form=rf, n=1, name="f3"),
+                    dict(k="ends", lab=1), dict(k="org", a=16), dict(k="emit", w=1, n=1, v=1)])
         # regression: ALIGN with fill value lays down whole address units
         F([c], [dict(k="cpu", c=c), dict(k="emit", w=1, n=3, v=77), dict(k="align", n=8, fill=170),
                 dict(k="emit", w=1, n=1, v=5), dict(k="align", n=4, fill=-1), dict(k="align", n=4, fill=0)])
